@@ -41,6 +41,7 @@ type Contract struct {
 	Fresh     bool
 	Det       bool
 	Used      bool
+	Uses      []string // lemmas / definitions from other contract files made visible to this function's proof
 }
 
 type SpecFunc struct {
@@ -90,7 +91,7 @@ func NewSpecDB() *SpecDB {
 
 var clauseKeywords = map[string]bool{"import": true, "ghost": true, "spec": true, "def": true, "axiom": true, "lemma": true,
 	"func": true, "extern": true, "requires": true, "ensures": true, "assigns": true, "loop": true, "inline": true,
-	"noinline": true, "dyninline": true, "trusted": true, "maypanic": true, "params": true, "results": true, "havoc": true, "det": true}
+	"noinline": true, "dyninline": true, "trusted": true, "maypanic": true, "params": true, "results": true, "havoc": true, "det": true, "uses": true}
 
 type rawLine struct {
 	text string
@@ -387,6 +388,8 @@ func (db *SpecDB) stmt(path, pkgPath string, st rawLine, cur **Contract) error {
 		(*cur).MayPanic = true
 	case "det":
 		(*cur).Det = true
+	case "uses":
+		(*cur).Uses = append((*cur).Uses, strings.Fields(strings.ReplaceAll(rest, ",", " "))...)
 	case "params":
 		(*cur).Params = strings.Fields(strings.ReplaceAll(rest, ",", " "))
 	case "results":
